@@ -25,8 +25,23 @@ int main(int argc, char **argv) {
 	if (argc < 6) { std::cerr << "usage\n"; return 2; }
 	std::string mode = argv[1];
 	std::ifstream pin(argv[2]);
-	size_t nStim = std::stoull(argv[3]);
-	size_t cycles = std::stoull(argv[4]);
+	// replay mode: argv[3] = file with lines "<design-id> <cyc0>;<cyc1>;..." (per cycle comma separated pin values), argv[4] ignored
+	std::map<std::string, std::vector<std::vector<std::string>>> fixedStim;
+	size_t nStim = 0, cycles = 0;
+	if (mode == "replay") {
+		std::ifstream sf(argv[3]); std::string line;
+		while (std::getline(sf, line)) {
+			std::istringstream ls(line); std::string id, rest; ls >> id >> rest;
+			std::vector<std::vector<std::string>> st;
+			std::istringstream cs(rest); std::string cyc;
+			while (std::getline(cs, cyc, ';')) {
+				std::vector<std::string> pins; std::istringstream ps(cyc); std::string pv;
+				while (std::getline(ps, pv, ',')) pins.push_back(pv == "e" ? std::string("") : pv);
+				st.push_back(pins);
+			}
+			fixedStim[id] = st;
+		}
+	} else { nStim = std::stoull(argv[3]); cycles = std::stoull(argv[4]); }
 	std::string outdir = argv[5];
 	std::string variants = argc > 6 ? argv[6] : "pre,def,min";
 	bool hookDumps = argc > 7 ? atoi(argv[7]) : 0;
@@ -60,6 +75,11 @@ int main(int argc, char **argv) {
 				nd::dumpNetlist(design.getCircuit(), net, prog.id + "." + v, true);
 				// stimuli are a function of (seed, design id hash, stimulus index) only: identical for all variants
 				auto pins = nd::findPins(design.getCircuit());
+				if (mode == "replay") {
+					auto it = fixedStim.find(prog.id);
+					if (it != fixedStim.end())
+						nd::runTrace(design.getCircuit(), hlim::ClockRational(1, 100'000'000), it->second, trace, prog.id + "." + v + " replay");
+				}
 				for (size_t k = 0; k < nStim; k++) {
 					vh::Rng rng(seed * 1000003ull + std::hash<std::string>{}(prog.id) * 31ull + k);
 					int mode = k % 3;
